@@ -40,10 +40,7 @@ func TestStandinBaziReverse(t *testing.T) {
 	seed, _ := strconv.ParseInt(os.Getenv("VERIF_SEED"), 10, 64)
 	rng := rand.New(rand.NewSource(seed + 11))
 	thisYear := time.Now().Local().Year()
-	bases := []int{1900, 1600}
-	if thorough {
-		bases = []int{1900, 1600, 1}
-	}
+	bases := []int{1900, 1600, 1}
 	check := func(s *Solar, sect int, base int) {
 		l := s.GetLunar()
 		ec := l.GetEightChar()
@@ -73,10 +70,17 @@ func TestStandinBaziReverse(t *testing.T) {
 		if thorough {
 			step = 1
 		}
-		if base < 1600 {
+		if base < 1600 && thorough {
 			step *= 7
 		}
-		for y := base; y <= thisYear; y += step {
+		if base < 1600 && !thorough {
+			step = 1
+		}
+		last := thisYear
+		if base < 1600 && !thorough {
+			last = base + 1 // quick: base year 1 only for its own first two years (the edge of the range)
+		}
+		for y := base; y <= last; y += step {
 			table := NewLunarFromYmd(y, 6, 1).GetJieQiTable()
 			var moments []*Solar
 			for i := 2; i <= 24; i += 2 { // the twelve Jie of civil year y: 小寒 .. 大雪
